@@ -18,7 +18,11 @@ from pathlib import Path
 
 ROOT = Path(__file__).resolve().parent.parent
 COQ = ROOT / "coq"
-WORK = ROOT / "work"
+# VERIF_RUN_TAG=<tag> gives a run its own scratch and evidence directories (work/<tag>/...), so that a run against a
+# scratch copy of the repository (VERIF_REPO) never disturbs the registered checks' files
+RUN_TAG = os.environ.get("VERIF_RUN_TAG", "")
+WORK = ROOT / "work" / RUN_TAG if RUN_TAG else ROOT / "work"
+EVIDENCE_DIR = WORK / "evidence" if RUN_TAG else ROOT / "evidence"
 REPO = Path(os.environ.get("VERIF_REPO", "/repo"))
 IMPL_PY = "/venv/bin/python"
 FINDINGS_FILE = ROOT / "known_findings.json"
@@ -315,7 +319,7 @@ def run_impl(jobs, hashseed=0, env_extra=None, timeout=1800, nproc=None):
             raise RuntimeError("implementation worker failed: " + p.stderr[-3000:])
         return json.loads(p.stdout)
 
-    WORK.mkdir(exist_ok=True)
+    WORK.mkdir(parents=True, exist_ok=True)
     with concurrent.futures.ThreadPoolExecutor(max_workers=nproc) as ex:
         outs = list(ex.map(one, chunks))
     res = [None] * len(jobs)
@@ -384,8 +388,8 @@ class Report:
         }
         if self.notes:
             ev["notes"] = self.notes
-        (ROOT / "evidence").mkdir(exist_ok=True)
-        (ROOT / "evidence" / (self.prop + ".json")).write_text(json.dumps(ev, indent=1, default=str))
+        EVIDENCE_DIR.mkdir(parents=True, exist_ok=True)
+        (EVIDENCE_DIR / (self.prop + ".json")).write_text(json.dumps(ev, indent=1, default=str))
         sys.stdout.flush()
         return 1 if self.violations else 0
 
